@@ -572,6 +572,98 @@ class Resolver:
         self.level = level
         self.cache = {}
         self._busy = set()
+        self._busy_locals = set()
+        self.cyclic = self._find_cyclic()
+
+    def _find_cyclic(self):
+        """Loop-carried variables: in every dependency cycle between locals pick the user-named
+        multi-definition locals (else any multi-definition local) as the cut points."""
+        body = self.body
+        deps = {}
+
+        def reads_place(pl, acc):
+            acc.add(pl['local'])
+            for p in pl['proj']:
+                if p['k'] == 'index':
+                    acc.add(p['local'])
+
+        def reads_op(op, acc):
+            if op['k'] in ('copy', 'move'):
+                reads_place(op['place'], acc)
+
+        def reads_rv(rv, acc):
+            k = rv['k']
+            if k in ('use', 'cast', 'repeat'):
+                reads_op(rv['op'], acc)
+            elif k in ('ref', 'rawptr', 'copy_for_deref', 'discr'):
+                reads_place(rv['place'], acc)
+            elif k == 'agg':
+                for o in rv['ops']:
+                    reads_op(o, acc)
+            elif k == 'binop':
+                reads_op(rv['l'], acc)
+                reads_op(rv['r'], acc)
+            elif k == 'unop':
+                reads_op(rv['x'], acc)
+
+        for (l, ds) in body.defs().items():
+            acc = set()
+            for (dbb, didx) in ds:
+                bl = body.blocks[dbb]
+                if didx == 'term':
+                    t = bl['term']
+                    for a in t['args']:
+                        reads_op(a, acc)
+                    if 'indirect' in t['func']:
+                        reads_op(t['func']['indirect'], acc)
+                else:
+                    reads_rv(bl['stmts'][didx]['rv'], acc)
+            deps[l] = acc
+        # Tarjan SCC
+        index = {}
+        low = {}
+        onst = set()
+        st = []
+        sccs = []
+        counter = [0]
+        import sys
+        sys.setrecursionlimit(max(10000, sys.getrecursionlimit()))
+
+        def strong(v):
+            index[v] = low[v] = counter[0]
+            counter[0] += 1
+            st.append(v)
+            onst.add(v)
+            for w in deps.get(v, ()):
+                if w not in deps:
+                    continue
+                if w not in index:
+                    strong(w)
+                    low[v] = min(low[v], low[w])
+                elif w in onst:
+                    low[v] = min(low[v], index[w])
+            if low[v] == index[v]:
+                comp = []
+                while True:
+                    w = st.pop()
+                    onst.discard(w)
+                    comp.append(w)
+                    if w == v:
+                        break
+                sccs.append(comp)
+
+        for v in list(deps):
+            if v not in index:
+                strong(v)
+        cyc = set()
+        ndefs = {l: len(ds) for l, ds in body.defs().items()}
+        for comp in sccs:
+            if len(comp) == 1 and comp[0] not in deps.get(comp[0], ()):
+                continue
+            named = [l for l in comp if ndefs.get(l, 0) >= 2 and body.local_name(l)]
+            multi = [l for l in comp if ndefs.get(l, 0) >= 2]
+            cyc.update(named or multi)
+        return cyc
 
     # reaching definitions for a whole local at a program point
     def reaching(self, local, bb, idx):
@@ -706,9 +798,12 @@ class Resolver:
         key = (l, bb, idx if idx != len(body.blocks[bb]['stmts']) else 'term')
         if key in self.cache:
             return self.cache[key]
-        if key in self._busy:
-            return ('loop', l)
+        if key in self._busy or l in self._busy_locals:
+            # loop-carried variable: refer to it by identity, its definitions are available via var_defs()
+            self.cyclic.add(l)
+            return ('var', l, body.local_name(l))
         self._busy.add(key)
+        self._busy_locals.add(l)
         try:
             rd = self.reaching(l, bb, idx)
             if not rd:
@@ -727,10 +822,20 @@ class Resolver:
                     if a not in uniq:
                         uniq.append(a)
                 r = uniq[0] if len(uniq) == 1 else ('phi', l, tuple(uniq))
+                if l in self.cyclic and len(rd) > 1:
+                    r = ('var', l, body.local_name(l))
         finally:
             self._busy.discard(key)
+            self._busy_locals.discard(l)
         self.cache[key] = r
         return r
+
+    def var_defs(self, l):
+        """All definitions of a (loop-carried) variable: list of (bb, idx, expr)."""
+        out = []
+        for (dbb, didx) in self.body.defs().get(l, []):
+            out.append((dbb, didx, self.def_expr(dbb, didx)))
+        return out
 
     def def_expr(self, dbb, didx):
         body = self.body
@@ -748,7 +853,7 @@ class Resolver:
         if c.indirect:
             f = self.operand(t['func']['indirect'], bb, n)
             return ('callind', f, args, bb)
-        if self.level >= 1 and c.name in TRANSPARENT_CALLS and len(args) >= 1:
+        if self.level >= 1 and c.name in TRANSPARENT_CALLS and (len(args) == 1 or (c.name == 'expect' and len(args) == 2)):
             # unwrap_or_else etc. are not in the set; expect/unwrap take the payload
             if c.name in ('unwrap', 'expect'):
                 return self._payload(args[0], 'Ok')
@@ -930,8 +1035,8 @@ def fmt(e, depth=0):
         return '%s(%s)' % (e[1], f(e[2]))
     if k == 'discr':
         return 'discr(%s)' % f(e[1])
-    if k == 'loop':
-        return 'loop(_%s)' % e[1]
+    if k == 'var':
+        return '$%s' % (e[2] or ('_%s' % e[1]))
     if k == 'cast':
         return 'cast(%s)' % f(e[1])
     if k == 'phi':
